@@ -686,19 +686,27 @@ impl TransportManager {
             // Keep the provided record around for possible future dials.
             context.addresses.insert(address_record.clone());
 
-            match context.state.dial_single_address(dial_record) {
+            // Check if dialing is possible before handing the address to the transport.
+            match context.state.can_dial() {
                 StateDialResult::AlreadyConnected => return Err(Error::AlreadyConnected),
                 StateDialResult::DialingInProgress => return Ok(()),
                 StateDialResult::Ok => {}
             };
+
+            // The peer must enter the `Dialing` state only if the transport has started the dial.
+            // Otherwise no transport event would ever reset the state and the peer could never
+            // be dialed again.
+            self.transports
+                .get_mut(&supported_transport)
+                .ok_or(Error::TransportNotSupported(
+                    address_record.address().clone(),
+                ))?
+                .dial(connection_id, address_record.address().clone())?;
+
+            // Dialing the address will succeed because `context.state.can_dial()` returned `Ok`.
+            context.state.dial_single_address(dial_record);
         }
 
-        self.transports
-            .get_mut(&supported_transport)
-            .ok_or(Error::TransportNotSupported(
-                address_record.address().clone(),
-            ))?
-            .dial(connection_id, address_record.address().clone())?;
         self.pending_connections.insert(connection_id, remote_peer_id);
 
         Ok(())
